@@ -81,12 +81,15 @@ func TestClusterDiscovery(t *testing.T) {
 	defer out.Close()
 	env := NewEnv(t, TempDir(t), &Gate{}, nil)
 	run := 0
+	jit := vt.StartJitter()
+	defer jit.Stop()
 	vt.EachInput(t, func(raw []byte) {
 		var in struct {
 			Ops []discOp `json:"ops"`
 		}
 		vt.MustUnmarshal(t, raw, &in)
 		run++
+		tStart := time.Now()
 		env.WipeStore()
 		ctx, cancelAll := context.WithCancel(context.Background())
 		spy := &streamSpy{Store: env.Raw}
@@ -197,6 +200,9 @@ func TestClusterDiscovery(t *testing.T) {
 		spy.mu.Lock()
 		envfail := spy.ended
 		spy.mu.Unlock()
+		if jit.StarvedSince(tStart) { // the process was starved of CPU: real-time bounds mean nothing for this schedule
+			envfail = true
+		}
 		out.Emit(Event{"ev": "Disc", "run": run, "ops": in.Ops, "subs": final, "unsubs": unsubs, "registered": regs, "envfail": envfail})
 		for _, un := range unreg {
 			un()
